@@ -17,6 +17,23 @@ Definition body_known (b : body) : bool :=
   | BSlf sb => call_known (sb_call sb)
   | _ => true end.
 
+(* the user method is actually run: a dispatch arm (or the closure message of a generic method, a static delegate, a
+   self-consuming method) awaits the user's call exactly when the user declared that method `async fn` - a future that is
+   created and dropped would leave the accepted call unexecuted; the stop call is awaited exactly on the async runtimes *)
+Definition call_awaited_ok (ua : list string) (c : ucall) (aw : bool) : bool := Bool.eqb aw (mem (call_name c) ua).
+Definition lib_async (l : lib) : bool := match l with Std => false | _ => true end.
+Definition await_ok (m : model) : bool :=
+  forallb (fun a => match a with ArmStruct _ _ b => call_awaited_ok (m_user_async m) (ab_call b) (ab_await b) | _ => true end) (m_arms m)
+  && forallb (fun lm => match lm_body lm with
+                        | BRef rb | BStop rb _ _ =>
+                            match rb_msg rb with
+                            | MClosure _ _ _ _ b _ => call_awaited_ok (m_user_async m) (ab_call b) (ab_await b)
+                            | _ => true end
+                        | BSlf sb => call_awaited_ok (m_user_async m) (sb_call sb) (sb_await sb)
+                                     && Bool.eqb (sb_stop_await sb) (lib_async (m_lib m))
+                        | BStat _ f _ aw => Bool.eqb aw (mem f (m_user_async m))
+                        | _ => true end) (m_methods m).
+
 (* play: blocking receive loop on its receiver parameter, inline dispatch of every message on its actor parameter *)
 Definition play_ok (m : model) : bool :=
   match m_play m with
@@ -54,7 +71,7 @@ Definition ctor_ok (m : model) : bool :=
 
 Definition wf_struct (m : model) : bool :=
   is_nil (m_unknown m) && forallb arm_known (m_arms m) && forallb (fun lm => body_known (lm_body lm)) (m_methods m)
-  && play_ok m && ctor_ok m && nodup_str (map lm_name (m_methods m)) && nodup_str (map v_name (m_variants m)).
+  && play_ok m && ctor_ok m && nodup_str (map lm_name (m_methods m)) && nodup_str (map v_name (m_variants m)) && await_ok m.
 
 (* C08: every handle method sends with a blocking send on the handle's own sender; the capacity is a literal *)
 Definition wf_C08 (m : model) : bool := wf_struct m && all_blocking (elab m).
